@@ -51,7 +51,8 @@ enum Strat {
 #[derive(Clone, Copy, Debug, PartialEq)]
 enum PerEnds {
     Equal,
-    UnequalLane(usize),
+    /// lane k of the last row differs from the first row: by 1.0 / by one ulp / by 2^-20 relative
+    UnequalLane(usize, u8),
     NanEnds,
 }
 #[derive(Clone, Copy, Debug, PartialEq)]
@@ -134,12 +135,16 @@ fn data_for(c: &Case1) -> ArrayD<f64> {
             d.index_axis_mut(ndarray::Axis(0), n - 1).assign(&first);
             match p {
                 PerEnds::Equal => {}
-                PerEnds::UnequalLane(k) => {
+                PerEnds::UnequalLane(k, how) => {
                     let mut last = d.index_axis_mut(ndarray::Axis(0), n - 1);
                     let len = last.len();
                     if len > 0 {
                         if let Some(e) = last.iter_mut().nth(k % len) {
-                            *e += 1.0;
+                            *e = match how {
+                                0 => *e + 1.0,
+                                1 => f64::from_bits(e.to_bits() + 1),
+                                _ => *e * (1.0 + 2.0f64.powi(-20)),
+                            };
                         }
                     }
                 }
@@ -240,7 +245,9 @@ fn cases_1d() -> Vec<Case1> {
             Strat::CubicIndividual(BShape::WrongRank),
         ];
         for k in 0..trail.max(1) {
-            s.push(Strat::CubicPeriodic(PerEnds::UnequalLane(k)));
+            for how in 0..3 {
+                s.push(Strat::CubicPeriodic(PerEnds::UnequalLane(k, how)));
+            }
         }
         s
     };
